@@ -63,8 +63,44 @@ impl<D: Dec> FreshTable<D> {
     }
 }
 
+/// Behavioural test of "back in its initial condition": does `d` answer every 1- and 2-byte continuation, and every
+/// 3-byte continuation that starts with two prefix bytes, exactly like a fresh decoder?  (The hook's `==` is only a
+/// fast path: a tree may carry extra state that has no influence on later bytes, which the property allows.)
+fn first_behavioural_difference<D: Dec>(d: &D) -> Option<(Vec<u8>, u16, u16)> {
+    let pre = [0xE0u8, 0xE1, 0xF0];
+    for a in 0..=255u8 {
+        let (mut x, mut y) = (d.clone(), D::fresh());
+        let ra = guarded(|| enc_res(&x.advance_state(a))).unwrap_or(ENC_RES_PANIC);
+        let rb = guarded(|| enc_res(&y.advance_state(a))).unwrap_or(ENC_RES_PANIC);
+        if ra != rb {
+            return Some((vec![a], rb, ra));
+        }
+        for b in 0..=255u8 {
+            let (mut x2, mut y2) = (x.clone(), y.clone());
+            let ra = guarded(|| enc_res(&x2.advance_state(b))).unwrap_or(ENC_RES_PANIC);
+            let rb = guarded(|| enc_res(&y2.advance_state(b))).unwrap_or(ENC_RES_PANIC);
+            if ra != rb {
+                return Some((vec![a, b], rb, ra));
+            }
+            if pre.contains(&a) && pre.contains(&b) {
+                for c in 0..=255u8 {
+                    let (mut x3, mut y3) = (x2.clone(), y2.clone());
+                    let ra = guarded(|| enc_res(&x3.advance_state(c))).unwrap_or(ENC_RES_PANIC);
+                    let rb = guarded(|| enc_res(&y3.advance_state(c))).unwrap_or(ENC_RES_PANIC);
+                    if ra != rb {
+                        return Some((vec![a, b, c], rb, ra));
+                    }
+                }
+            }
+        }
+    }
+    None
+}
+
 #[derive(Default)]
 struct Out {
+    structural_only: u64,
+    judged: std::collections::HashMap<String, Option<(Vec<u8>, u16, u16)>>,
     bytes: u64,
     streams: u64,
     streams4: u64,
@@ -178,26 +214,37 @@ impl<D: Dec> Walker<D> {
             out.none_runs[(self.seg.len() - 1).min(3)] += 1;
             self.prev_was_err = got < 16;
             if self.d != *fresh {
-                out.violations.push((
-                    format!(
-                        "C07|{}|not-initial-after|seg=[{}]|result={}|state={:?}",
-                        set_name(set),
-                        hex_bytes(&self.seg),
-                        enc_res_str(got, uni),
-                        self.d
-                    ),
-                    format!(
-                        "{}: after [{}] returned {} the decoder is {:?}, not its initial condition {:?}",
-                        set_name(set),
-                        hex_bytes(&self.seg),
-                        enc_res_str(got, uni),
-                        self.d,
-                        fresh
-                    ),
-                    replay(set, &self.hist, "decoder == new()", &format!("{:?}", self.d)),
-                ));
-                self.seg.clear();
-                return false;
+                let key = format!("{:?}", self.d);
+                if !out.judged.contains_key(&key) {
+                    let v = first_behavioural_difference(&self.d);
+                    out.judged.insert(key.clone(), v);
+                }
+                if let Some((cont, want, gotc)) = out.judged[&key].clone() {
+                    out.violations.push((
+                        format!(
+                            "C07|{}|not-initial-after|seg=[{}]|result={}|state={:?}",
+                            set_name(set),
+                            hex_bytes(&self.seg),
+                            enc_res_str(got, uni),
+                            self.d
+                        ),
+                        format!(
+                            "{}: after [{}] returned {} the decoder is {:?}, not its initial condition {:?}: the following bytes [{}] give {} where a fresh decoder gives {}",
+                            set_name(set),
+                            hex_bytes(&self.seg),
+                            enc_res_str(got, uni),
+                            self.d,
+                            fresh,
+                            hex_bytes(&cont),
+                            enc_res_str(gotc, uni),
+                            enc_res_str(want, uni)
+                        ),
+                        replay(set, &self.hist, "decoder == new()", &format!("{:?}", self.d)),
+                    ));
+                    self.seg.clear();
+                    return false;
+                }
+                out.structural_only += 1;
             }
             self.seg.clear();
             true
@@ -221,6 +268,7 @@ pub fn run<D: Dec>(rep: &mut Report) {
     let mut transitions = 0u64;
     let mut err_then_cont: BTreeSet<String> = BTreeSet::new();
     let mut twin_checks = 0u64;
+    let mut structural_only = 0u64;
     let mut nontrivial: BTreeSet<(String, u8)> = BTreeSet::new();
     while let Some(name) = queue.pop_front() {
         let (d, path, run) = states[&name].clone();
@@ -261,11 +309,23 @@ pub fn run<D: Dec>(rep: &mut Report) {
             nontrivial.insert((name.clone(), b));
             // non-None: must be back in the initial condition …
             if dd != fresh {
-                rep.violate(
-                    format!("C07|{}|not-initial-after|seg=[{}]|result={}|state={:?}", set_name(set), hex_bytes(&hist), enc_res_str(e, &uni), dd),
-                    format!("{}: after [{}] returned {} the decoder is {:?}, not its initial condition", set_name(set), hex_bytes(&hist), enc_res_str(e, &uni), dd),
-                    replay(set, &hist, "decoder == new()", &format!("{:?}", dd)),
-                );
+                match first_behavioural_difference(&dd) {
+                    Some((cont, want, gotc)) => rep.violate(
+                        format!("C07|{}|not-initial-after|seg=[{}]|result={}|state={:?}", set_name(set), hex_bytes(&hist), enc_res_str(e, &uni), dd),
+                        format!(
+                            "{}: after [{}] returned {} the decoder is {:?}, not its initial condition: the following bytes [{}] give {} where a fresh decoder gives {}",
+                            set_name(set),
+                            hex_bytes(&hist),
+                            enc_res_str(e, &uni),
+                            dd,
+                            hex_bytes(&cont),
+                            enc_res_str(gotc, &uni),
+                            enc_res_str(want, &uni)
+                        ),
+                        replay(set, &hist, "decoder == new()", &format!("{:?}", dd)),
+                    ),
+                    None => structural_only += 1,
+                }
                 let nn = format!("{:?}", dd);
                 if !states.contains_key(&nn) && states.len() < 4096 {
                     states.insert(nn.clone(), (dd.clone(), hist.clone(), 0));
@@ -322,6 +382,7 @@ pub fn run<D: Dec>(rep: &mut Report) {
     rep.count(&format!("{}_graph_states", set_name(set)), states.len() as u64);
     rep.count(&format!("{}_graph_transitions", set_name(set)), transitions);
     rep.count(&format!("{}_twin_vs_fresh_continuations", set_name(set)), twin_checks);
+    rep.count(&format!("{}_states_differing_from_new()_only_structurally(no_behavioural_difference_found)", set_name(set)), structural_only);
     rep.count(&format!("{}_states_with_error_then_continuation", set_name(set)), err_then_cont.len() as u64);
     rep.require("states in which an error was followed by continuation bytes", err_then_cont.len() as u64, states.len().min(if set == 2 { 6 } else { 3 }) as u64);
     rep.exhaustive = Some(states.len() < 4096);
@@ -459,6 +520,7 @@ pub fn run<D: Dec>(rep: &mut Report) {
 }
 
 fn merge(a: &mut Out, b: Out) {
+    a.structural_only += b.structural_only;
     a.bytes += b.bytes;
     a.finals += b.finals;
     a.errs_followed += b.errs_followed;
